@@ -5,6 +5,11 @@ ROOT = os.path.dirname(os.path.dirname(os.path.abspath(__file__)))
 
 TECH = "deterministic simulation with fault injection: "
 CHECKS = {
+ "C18": dict(
+   text="The real AymPrecise driven by seeded register-write histories interleaved with sample generation at seeded sample rates (8-384 kHz), chips (AY/YM) and stereo modes, followed by one probe segment whose PCM is measured: tone pitch (zero crossings), TP=0 vs TP=1 stream identity, noise transition rate, envelope contour and repeat period for all 16 shapes, strictly increasing volume ladder, mixer gating for all 64 masks, panning per mode x channel, finiteness and bound; port read-back and register-number wrap through the real machine. Exploration with analytic, tolerance-based oracles - the weakest fit of the twenty (stated in DESIGN).",
+   note="Tolerances: pitch 1.5%+2 Hz (f < 0.2*rate), noise rate +-15%, envelope repeat period +-3%, ramp timing coarse (+-7%); a 1% pitch error or a wrong noise polynomial would pass. The simulated dimension is the write/generate interleaving and the sample rate; pitch and shape clauses themselves are pure.",
+   technique=TECH+"seeded register-write/sample-generation interleavings on the real chip model, PCM features checked against the chip definition",
+   ref="5 (C18)"),
  "C20": dict(
    text="vtx::Player on a recording AymBackend under seeded partitions of the output into play() buffer lengths (1, 2, odd, prime, huge, mixed; odd and length-1 buffers in stereo): exact register-write schedule (frame k at sample k*floor(rate/freq), R13=0xFF skipped), totals, end reporting, stream order; on the real AymPrecise the chunked stream must be bit-identical to the one-buffer stream for i8/i16/i32/f32/f64; Vtx::load of generated files (independent header/strings builder + literal-only LH5 encoder) and of the repository's files must give the frame-major transpose. Sampling, not proof.",
    note="The schedule dimension is the caller's chunking of play(); no clock or fault is involved. Domain: sample_rate >= player_frequency >= 1; a length-1 buffer in stereo cannot hold a pair and must leave the stream untouched.",
